@@ -6077,8 +6077,11 @@ memory_cast = getattr(memoryview, "cast", lambda *x: x[0])
 
 
 def modified_base64(s):
-    s_utf7 = s.encode("utf-7")
-    return s_utf7[1:-1].replace(b"/", b",")
+    # RFC 3501 5.1.3: base64 of the UTF-16BE text, without padding and with
+    # "," instead of "/".  (Python's utf-7 codec cannot be used for this: it
+    # represents some characters directly, e.g. CR, LF and TAB.)
+    s_utf16 = s.encode("utf-16-be")
+    return binascii.b2a_base64(s_utf16).rstrip(b"\n=").replace(b"/", b",")
 
 
 def modified_unbase64(s):
